@@ -17,8 +17,13 @@ import (
 	"testing"
 	"time"
 
+	"net/netip"
+
 	"github.com/veesix-networks/osvbng/pkg/aaa"
+	"github.com/veesix-networks/osvbng/pkg/allocator"
 	"github.com/veesix-networks/osvbng/pkg/component"
+	"github.com/veesix-networks/osvbng/pkg/config"
+	"github.com/veesix-networks/osvbng/pkg/config/subscriber"
 	"github.com/veesix-networks/osvbng/pkg/events"
 	"github.com/veesix-networks/osvbng/pkg/ifmgr"
 	"github.com/veesix-networks/osvbng/pkg/logger"
@@ -60,6 +65,62 @@ func (b *c06Bus) DebugTopics() []string                                { return 
 func (b *c06Bus) Close() error                                         { return nil }
 
 type c06Sub struct{}
+
+type c06CfgMgr struct{ cfg *config.Config }
+
+func (f *c06CfgMgr) GetRunning() (*config.Config, error) { return f.cfg, nil }
+func (f *c06CfgMgr) GetStartup() (*config.Config, error) { return f.cfg, nil }
+func (f *c06CfgMgr) LookupSubscriberGroup(svlan, cvlan uint16) (subscriber.GroupMatch, bool) {
+	return subscriber.GroupMatch{}, false
+}
+
+// "<aaa>[/<alloc>[/<reserve>]]"
+func c06Split3(tok string) (string, string, string) {
+	p := strings.Split(tok, "/")
+	a, al, rs := p[0], "none", "ok"
+	if len(p) > 1 {
+		al = p[1]
+	}
+	if len(p) > 2 {
+		rs = p[2]
+	}
+	return a, al, rs
+}
+
+// Puts the REAL allocator registry into the state that makes the next startNCP see the outcome named by
+// the case: a one-address pool that is free / held by another session.
+func c06Registry(s *SessionState, alloc, reserve string) {
+	one := func(ip net.IP, held bool) *allocator.Registry {
+		a, ok := netip.AddrFromSlice(ip.To4())
+		if !ok {
+			panic("registry address")
+		}
+		r := allocator.NewTestRegistry(a, a)
+		if held {
+			if err := r.ReserveIP(ip, "another-session"); err != nil {
+				panic("pre-reservation failed")
+			}
+		}
+		return r
+	}
+	s.component.registry = nil
+	s.AllocCtx = nil
+	if s.IPv4Address == nil {
+		switch alloc {
+		case "none":
+		case "full":
+			s.component.registry = one(net.IPv4(10, 9, 9, 9), true)
+			s.AllocCtx = &allocator.Context{ProfileName: "test"}
+		default:
+			s.component.registry = one(net.IP(c06Bytes(alloc)), false)
+			s.AllocCtx = &allocator.Context{ProfileName: "test"}
+		}
+		return
+	}
+	if v4 := s.IPv4Address.To4(); v4 != nil {
+		s.component.registry = one(v4, reserve == "cf")
+	}
+}
 
 func (c06Sub) Unsubscribe() {}
 
@@ -122,6 +183,7 @@ func c06Sess(f []string) string {
 		logger:   logger.NewTest(),
 		eventBus: bus,
 		ifMgr:    ifMgr,
+		cfgMgr:   &c06CfgMgr{cfg: &config.Config{}},
 	}
 	s := &SessionState{
 		component:      c,
@@ -139,10 +201,12 @@ func c06Sess(f []string) string {
 		s.ipv6cp.FSM().Kill()
 		s.lcp.FSM().Kill()
 	}()
-	if f[0] != "none" {
-		s.Attributes[aaa.AttrIPv4Address] = net.IP(c06Bytes(f[0])).String()
+	a0, al0, rs0 := c06Split3(f[0])
+	if a0 != "none" {
+		s.Attributes[aaa.AttrIPv4Address] = net.IP(c06Bytes(a0)).String()
 	}
 	s.extractIPFromAttributes()
+	c06Registry(s, al0, rs0)
 	// the authentication phase is over but the network phase is not entered: checkOpen then only logs
 	s.Phase = ppp.PhaseAuthenticate
 	s.startNCP()
@@ -196,12 +260,14 @@ func c06Sess(f []string) string {
 		case ev[0] == 'R':
 			// LCP renegotiated and authentication repeated: the AAA answer is evaluated again and
 			// startNCP runs a second time on the same session (and the same IPCP object)
-			if ev[1:] == "none" {
+			ra, ral, rrs := c06Split3(ev[1:])
+			if ra == "none" {
 				delete(s.Attributes, aaa.AttrIPv4Address)
 			} else {
-				s.Attributes[aaa.AttrIPv4Address] = net.IP(c06Bytes(ev[1:])).String()
+				s.Attributes[aaa.AttrIPv4Address] = net.IP(c06Bytes(ra)).String()
 			}
 			s.extractIPFromAttributes()
+			c06Registry(s, ral, rrs)
 			s.startNCP()
 		case ev[0] == 'q':
 			i := strings.IndexByte(ev, '.')
